@@ -14,6 +14,35 @@ import (
 // exploration is active, loops use the sorted order so that replay is deterministic.
 var Controlled bool
 
+// Concurrent turns function-entry scheduling points on (C08/C18 interleaving parts).
+var Concurrent bool
+
+// EnterFilter, when set, limits which function entries are scheduling points.
+var EnterFilter func(site string) bool
+
+// Enter is inserted at the entry of every function of parser, symtable, compile and vm.
+func Enter(site string) {
+	if !Concurrent {
+		return
+	}
+	if x := explore.Cur(); x != nil {
+		if EnterFilter != nil && !EnterFilter(site) {
+			return
+		}
+		x.Yield(site)
+	}
+}
+
+// StepHook, when set, is called at the entry of every opcode handler with the frame
+// (a *py.Frame passed as interface{} so this package stays import-free) and the opcode name.
+var StepHook func(frame interface{}, opcode string)
+
+func Step(frame interface{}, opcode string) {
+	if StepHook != nil {
+		StepHook(frame, opcode)
+	}
+}
+
 // Sites records how often each site was reached with >= 2 keys (evidence).
 var Sites = map[string]int{}
 
